@@ -339,7 +339,7 @@ async def tblcoro(T, k, gid, impl):
 '''
 
 DRIVER = r'''
-import sys, json, importlib.util
+import sys, json, importlib.util, importlib.machinery
 import c23_support as S
 spec = json.load(sys.stdin)
 mods = {}
